@@ -3,11 +3,29 @@ package trie
 import (
 	"bytes"
 	"math/bits"
+	"reflect"
+	"unsafe"
 
 	"github.com/openacid/low/bitmap"
 	"github.com/openacid/low/bitstr"
 	"github.com/openacid/low/bmtree"
 )
+
+// strCmpUpto compares the string a, truncated to the length of the bitstr b,
+// with b. It is bitstr.CmpUpto without copying a.
+//
+// bitstr.StrCmpUpto reinterprets the 2-word string header as a 3-word slice
+// header and thus reads a random capacity; slicing then panics now and then
+// ("slice bounds out of range [:n] with capacity 0").
+func strCmpUpto(a string, b []byte) int {
+	var bs []byte
+	sh := (*reflect.StringHeader)(unsafe.Pointer(&a))
+	bh := (*reflect.SliceHeader)(unsafe.Pointer(&bs))
+	bh.Data = sh.Data
+	bh.Len = sh.Len
+	bh.Cap = sh.Len
+	return bitstr.CmpUpto(bs, b)
+}
 
 type querySession struct {
 	keyBitLen int32
@@ -150,7 +168,7 @@ func (st *SlimTrie) GetID(key string) int32 {
 		}
 
 		if qr.hasInnerPrefix {
-			r := bitstr.StrCmpUpto(key[i>>3:], qr.innerPrefix)
+			r := strCmpUpto(key[i>>3:], qr.innerPrefix)
 			if r != 0 {
 				return -1
 			}
@@ -252,7 +270,7 @@ func (st *SlimTrie) searchID(key string) (lID, eqID, rID int32) {
 		}
 
 		if qr.hasInnerPrefix {
-			r := bitstr.StrCmpUpto(key[i>>3:], qr.innerPrefix)
+			r := strCmpUpto(key[i>>3:], qr.innerPrefix)
 			if r == 0 {
 				i = i&(^7) + qr.innerPrefixLen
 			} else if r < 0 {
